@@ -126,7 +126,10 @@ def gen_case(rnd, prop, tier):
     n_est = 0
     for _ in range(rnd.randint(2, 6)):
         if n_est > 0 and rnd.random() < 0.25:
-            ops.append(['QUERY', rnd.randrange(n_est), rnd.sample(attrs, rnd.randint(1, min(3, n)))])
+            if prop == 'C08' and rnd.random() < 0.6:
+                ops.append(['SYNTH', rnd.randrange(n_est), rnd.choice([1, 7, 60, 300]), rnd.choice(['round', 'round', 'sample'])])
+            else:
+                ops.append(['QUERY', rnd.randrange(n_est), rnd.sample(attrs, rnd.randint(1, min(3, n)))])
             continue
         r = rnd.random()
         if prev is None or r < 0.3:
@@ -485,7 +488,23 @@ def run_case(case, prop):
     last = None
     snap_queries = [list(attrs[:2]), [attrs[-1]]] + ([[attrs[0], attrs[-1]]] if len(attrs) > 2 else [])
     for oi, op in enumerate(case['ops']):
-        if op[0] == 'QUERY':
+        if op[0] == 'SYNTH':
+            hit = [r_ for r_ in returned if r_[3] == op[1] + 1]
+            if hit:
+                m = hit[0][0]
+                rng = SimRNG(random.Random(case['syn']['seed'] + oi), {'rates': case['syn']['rates'], 'shuffle': case['syn']['shuffle']})
+
+                def go():
+                    with rng.installed():
+                        return m.synthetic_data(rows=op[2], method=op[3])
+                _, v = guard_repo(go, 'synthetic_data')
+                if v:
+                    probes['synthetic_data-raised(other property)'] = 1
+                faults['model-used-for-synthetic-data'] = faults.get('model-used-for-synthetic-data', 0) + 1
+                seq.append(('S', op[3]))
+                steps += 1
+                check_coherent(mbi, m, case, 'model of EST #%d re-checked after synthetic_data(rows=%d, method=%s)' % (op[1] + 1, op[2], op[3]), 'after-synthetic_data', viol, probes)
+        elif op[0] == 'QUERY':
             if op[1] < len(returned):
                 m = returned[op[1]][0]
                 _, v = guard_repo(lambda: m.project(tuple(op[2])), 'project')
@@ -661,7 +680,7 @@ def shrink(case, prop):
         new = []
         for i in keep:
             op = copy.deepcopy(ops[i])
-            if op[0] == 'QUERY':
+            if op[0] in ('QUERY', 'SYNTH'):
                 if op[1] not in remap:
                     continue
                 op[1] = remap[op[1]]
